@@ -25,3 +25,15 @@ Deliverables in {out}/ :
   2. a demonstration: a NEW Go test file (say where it must be placed, e.g. collect/seed_demo_test.go; it may be an internal or external test) or a small program, that FAILS with your change applied and PASSES without it, deterministically (run it 5 times each way; no reliance on wall-clock luck). State the exact command to run it.
   3. meta.json - {{"property":"{pid}","summary":"what the change does","needs_to_manifest":"what specific input/schedule/sequence exposes it","files_touched":[...],"demo_file":"path relative to repo root","demo_cmd":"...","existing_tests_run":["cmds you ran and that passed with the change"]}}
 Before finishing: prove both directions with `git -C {wt} diff > {out}/patch.diff; git -C {wt} apply -R {out}/patch.diff` and `git -C {wt} apply {out}/patch.diff` (NEVER use git stash: the stash is shared with other worktrees), leave the worktree with your change APPLIED and the demo file in place, and report concisely what you did. If your first idea is caught by existing tests, try another; report honestly if you could not find one.""")
+
+# optional: list ideas already tried for this property so a new seeder does something different
+import glob, os
+tried = []
+for d in sorted(glob.glob('/verif/seeded/%s-*' % pid)):
+    try:
+        m = json.load(open(os.path.join(d, 'meta.json')))
+        tried.append('- ' + (m.get('summary') or '')[:400].replace('\n', ' '))
+    except Exception:
+        pass
+if tried and len(sys.argv) > 2 and sys.argv[2] == '--avoid':
+    print("\nIdeas that were ALREADY used by earlier seeders for this property (do something genuinely different: another code path, another kind of slip, another way to manifest):\n" + "\n".join(tried))
